@@ -74,7 +74,7 @@ static std::vector<CheckDef> g_checks = {
           "splits, twin clients on the same stream, one >= 2^31-byte run per implementation; distinct_nontrivial: distinct "
           "(implementation, w, max_len class, hit position class) cells",
           { "golden copy of the 256-entry table frozen in /verif defines the hash", "sampling, not proof" } },
-        { "C07", "exploration", { { "stream", 1 } }, 30000, 3000000, 50, 900, false, false,
+        { "C07", "exploration", { { "stream", 7 }, { "gcmjump", 1 } }, 30000, 3000000, 50, 900, false, false,
           "cases: AES-GCM streaming clients (key size x family x enc/dec x in/out of place x nt) under arbitrary update splits, contexts sharing "
           "key data, restarts, 8 runs with a message longer than 2^32 bytes; oracle = one-shot call of the same family; distinct_nontrivial: distinct (family, key size, direction, "
           "carried partial length, fragment residue, fragment class, nt, in-place) cells",
@@ -238,6 +238,8 @@ static Sim *get_sim(const std::string &n)
                 s = make_gcmhuge_sim();
         else if (n == "oneshot")
                 s = make_oneshot_sim();
+        else if (n == "gcmjump")
+                s = make_gcmjump_sim();
         else if (n == "cbchuge")
                 s = make_cbchuge_sim();
         else if (n == "dispatch")
